@@ -51,6 +51,24 @@ def programs(tier):
         ]
     )
     yield ("loop-fn-waits-signal", loopw, {"x": 0}, dict(horizon=H_))
+    wd = T.prog(
+        [
+            T.fn("refine", ["a"], ["a"], behav="env"),
+            T.route("gt", ["a"], ["refine", "END"]),
+            T.fn("scale", ["a"], ["d"], behav="env"),
+            T.fn("audit", ["d"], ["rep"], wait_for=["a"], behav="env"),
+        ]
+    )
+    yield ("loop-wait-for-data-name", wd, {"a": 0}, dict(horizon=H_))
+    two = T.prog(
+        [
+            T.fn("setup", ["e0"], ["cfg"], emit=["setup_done"]),
+            T.fn("refine", ["a"], ["a"], emit=["round_done"], behav="env"),
+            T.route("gt", ["a"], ["refine", "END"]),
+            T.fn("report", ["a"], ["rep"], wait_for=["round_done", "setup_done"], behav="env"),
+        ]
+    )
+    yield ("loop-two-signals-one-produced-once", two, {"a": 0, "e0": ["prov", "e0"]}, dict(horizon=H_))
     slow = T.prog(
         [
             T.fn("step", ["count"], ["count"], emit=["tick"], behav="env"),
@@ -190,7 +208,19 @@ def signal_violations(prog, inputs, x):
                     if not stale(node):
                         continue
                     last = starts[-1]
-                    if not all(any(o == n and ((pc is not None and pc.done_seq > last.seq) or (pc is None and st_ > last.step)) for (st_, o, pc) in productions) for n in w["wait_for"]):
+
+                    def anew(n):
+                        """produced anew since the waiter's last start: any emission of a signal; for a DATA name a
+                        production whose value differs from the value the name had when the waiter last started"""
+                        emit_names = {e for sp in prog["nodes"] for e in sp.get("emit", [])}
+                        later = [(st_, pc) for (st_, o, pc) in productions if o == n and ((pc is not None and pc.done_seq > last.seq) or (pc is None and st_ > last.step))]
+                        if n in emit_names:
+                            return bool(later)
+                        before = [pc for (st_, o, pc) in productions if o == n and pc is not None and pc.done_seq < last.seq]
+                        ref = _value_of(before[-1], n, h) if before else inputs.get(n, "<absent>")
+                        return any(pc is None or _value_of(pc, n, h) != ref for _, pc in later)
+
+                    if not all(anew(n) for n in w["wait_for"]):
                         continue
                 out.append(
                     (
@@ -199,6 +229,13 @@ def signal_violations(prog, inputs, x):
                     )
                 )
     return out
+
+
+def _value_of(call, name, h):
+    outs = h.specs[call.nid].get("outs", [])
+    if name not in outs:
+        return "<signal>"
+    return call.ret if len(outs) == 1 else call.ret[outs.index(name)]
 
 
 def _judge(prog, inputs):
